@@ -103,6 +103,26 @@ func nonNilError(f *ssa.Function, at *ssa.BasicBlock, v, e ssa.Value) bool {
 		}
 		return true
 	}
+	// an error-mapping helper applied to the failed call's error: g(e) whose every
+	// return is its parameter, a sentinel or a constructed error
+	if c, ok := v.(*ssa.Call); ok {
+		if g := c.Call.StaticCallee(); g != nil && len(g.Blocks) > 0 && g != f {
+			for ai, a := range c.Call.Args {
+				if a != e || ai >= len(g.Params) {
+					continue
+				}
+				all := true
+				for _, ret := range engine.Returns(g) {
+					if len(ret.Results) != 1 || !nonNilError(g, ret.Block(), resultValue(ret, 0), g.Params[ai]) {
+						all = false
+					}
+				}
+				if all {
+					return true
+				}
+			}
+		}
+	}
 	return provablyNonNil(f, at, v)
 }
 
